@@ -572,7 +572,7 @@ class C19(Prop):
     RULE = ("breadth-first search over call histories on real objects: for each of 19 seed objects (automata, regexes, "
             "grammars, PDAs, transducers, indexed grammars) every sequence of <= D operations from the class alphabet "
             "(queries, conversions, conversions of conversions, the same object as both operands, mutations of returned "
-            "objects); states deduplicated by a deep structural fingerprint of the world (private caches and aliasing "
+            "objects and, for indexed grammars, of the seed's own Rules object); states deduplicated by a deep structural fingerprint of the world (private caches and aliasing "
             "included); in every state the observation battery on the seed object is compared with the battery on a "
             "freshly built twin; non-trivial = history of length >= 2")
     BOUNDS = "history depth <= 3 (quick) / <= 4 (thorough, regex/pda/fst/ig) ; alphabets of 6-27 operations per class"
